@@ -179,6 +179,9 @@ func (c *fnCtx) applyContract(in ssa.Instruction, callee *ssa.Function, ct *Cont
 		c.em.assert("(=> " + c.reach[c.curB] + " " + f + ")")
 	}
 	c.eng.noteContractUse(short)
+	if ct.Trusted {
+		c.eng.noteContractUse("ASSUMED " + ct.Key + " (" + ct.Header + ")")
+	}
 	return r
 }
 
